@@ -7,6 +7,8 @@ import (
 	"context"
 	"encoding/json"
 	"fmt"
+	"os"
+	"path/filepath"
 	"sort"
 	"strings"
 	"time"
@@ -134,6 +136,21 @@ func runOSM(data json.RawMessage) vh.Verdict {
 		switch c.Impl {
 		case "basic":
 			w, err = ingest.BuildWorldFromOSM(nodes, ways, rels, &ingest.BuildOptions{Cores: cores})
+		case "basic-pbf":
+			// the same elements written to a .osm.pbf file with osm.Writer and ingested from the FILE: the file reader
+			// honours read options (SkipTags, SkipNodes, ...) that the in-memory source ignores
+			var dir string
+			dir, err = os.MkdirTemp("", "vh-osm-pbf")
+			if err != nil {
+				return
+			}
+			defer os.RemoveAll(dir)
+			name := filepath.Join(dir, "case.osm.pbf")
+			if err = writePBF(name, nodes, ways, rels); err != nil {
+				err = fmt.Errorf("harness: writing the pbf file: %v", err)
+				return
+			}
+			w, err = ingest.NewWorldFromPBFFile(name, &ingest.BuildOptions{Cores: cores})
 		case "compact":
 			source := ingest.MemoryOSMSource{Nodes: nodes, Ways: ways, Relations: rels}
 			var fs ingest.FeatureSource
@@ -184,12 +201,12 @@ func runOSM(data json.RawMessage) vh.Verdict {
 		compareTwo(cm, "diff", c.IDs, diffA, diffB, "basic", "compact")
 		return osmVerdict(cm, c.Sections)
 	}
-	opts := obs.Options{Keys: c.Keys, Queries: c.Queries, Refs: c.Impl == "basic", Each: true, EachCores: cores}
+	opts := obs.Options{Keys: c.Keys, Queries: c.Queries, Refs: c.Impl == "basic" || c.Impl == "basic-pbf", Each: true, EachCores: cores}
 	var got obs.Observation
 	if !obs.WithDeadline(20*time.Second, func() { got = obs.Observe(w, c.IDs, opts) }) {
 		return vh.Verdict{OK: false, Key: cm.class + ":observe:hang", Msg: "observation did not finish within 20 s"}
 	}
-	if c.Impl != "basic" {
+	if c.Impl != "basic" && c.Impl != "basic-pbf" {
 		// the compact world defines a different reference chain (C02): not compared against the specification here
 		exp.Obs.Refs, exp.Obs.Areas, exp.Obs.Rels, exp.Obs.Colls = nil, nil, nil, nil
 	}
@@ -223,4 +240,32 @@ func osmVerdict(cm *comparer, sections []string) vh.Verdict {
 		v.Obs = map[string]interface{}{"mismatches": ms}
 	}
 	return v
+}
+
+func writePBF(name string, nodes []osm.Node, ways []osm.Way, rels []osm.Relation) error {
+	f, err := os.Create(name)
+	if err != nil {
+		return err
+	}
+	defer f.Close()
+	w, err := osm.NewWriter(f)
+	if err != nil {
+		return err
+	}
+	for i := range nodes {
+		if err := w.WriteNode(&nodes[i]); err != nil {
+			return err
+		}
+	}
+	for i := range ways {
+		if err := w.WriteWay(&ways[i]); err != nil {
+			return err
+		}
+	}
+	for i := range rels {
+		if err := w.WriteRelation(&rels[i]); err != nil {
+			return err
+		}
+	}
+	return w.Flush()
 }
